@@ -49,6 +49,9 @@ pub struct Proto {
     pub thresh: usize,
     /// clone_span returns a fresh alias id
     pub reid: bool,
+    /// ids are plain counters from 1 (as the registry and most hand-written collectors number
+    /// their spans): two such collectors hand out the same numeric ids
+    pub overlap: bool,
     next: AtomicU64,
     st: Mutex<St>,
 }
@@ -63,12 +66,31 @@ impl Proto {
             cid,
             thresh,
             reid,
+            overlap: false,
             next: AtomicU64::new(1),
             st: Mutex::new(St::default()),
         }
     }
+    pub fn overlapping(mut self) -> Self {
+        self.overlap = true;
+        self
+    }
     fn alloc(&self) -> u64 {
-        (self.cid << 40) | self.next.fetch_add(1, Ordering::SeqCst)
+        let n = self.next.fetch_add(1, Ordering::SeqCst);
+        if self.overlap {
+            n
+        } else {
+            (self.cid << 40) | n
+        }
+    }
+    /// the id the next allocation will hand out (a heuristic for generators, racy by nature)
+    pub fn peek_next(&self) -> u64 {
+        let n = self.next.load(Ordering::SeqCst);
+        if self.overlap {
+            n
+        } else {
+            (self.cid << 40) | n
+        }
     }
     pub fn take_log(&self) -> Vec<(ThreadId, Call)> {
         std::mem::take(&mut self.st.lock().unwrap().log)
@@ -121,7 +143,7 @@ impl Proto {
             .collect()
     }
     fn known(&self, st: &mut St, what: &str, id: u64) -> Option<u64> {
-        if owner_of(id) != self.cid {
+        if !self.overlap && owner_of(id) != self.cid {
             st.errors.push(format!(
                 "{what}({id:#x}) reached collector {} but the id belongs to collector {}",
                 self.cid,
